@@ -1,6 +1,7 @@
 (* C06 - try macros: a failed step aborts everything after it.  Model: Spec.v. *)
 From Coq Require Import List ZArith Lia.
 From Join Require Import Tok Names Ast Comp Std Denote Spec Leaves SpecProps.
+From Join Require SpecSpawnProps.
 From Join Require Ir Gen RefineBase RefineChain RefineProg RefineTop.
 
 (* OBLIGATION failed_step_aborts *)
@@ -44,3 +45,42 @@ Theorem generated_code_refines_reference_semantics :
       den (user_names inp) msem dotsem callsem awaitsem e empty_env = spec msem dotsem callsem awaitsem sp.
 Proof. exact RefineTop.gen_refines_spec. Qed.
 Print Assumptions generated_code_refines_reference_semantics.
+
+(* OBLIGATION try_spawn_abort *)
+(* try_join_spawn!: after a failing step the caller's remaining code is Ret of the failure: nothing of a later step, and a map/and_then handler returns it untouched *)
+Theorem try_spawn_abort :
+  forall
+    (msem : String.string ->
+            option (list Tok.operand) -> Comp.dval -> list Comp.dval -> Comp.comp Comp.dval)
+    (dotsem : Tok.operand -> list (String.string * option Comp.val) -> Comp.dval -> Comp.comp Comp.dval)
+    (callsem : Comp.val -> list Comp.dval -> Comp.comp Comp.dval)
+    (awaitsem : Comp.val -> Comp.comp Comp.val) (p : Spec.sprog),
+  Ast.is_async (Spec.sp_cfg p) = false ->
+  forall (fuel k : nat) (st : Spec.state) (sr : Comp.dval) (ds : list Comp.dval) (d : Comp.dval),
+  Ast.is_try (Spec.sp_cfg p) = true ->
+  fuel <> 0 ->
+  Spec.extract (Spec.actives p k) sr = Comp.Ret ds ->
+  SpecProps.all_classified ds = true ->
+  SpecProps.first_fail_list ds = Some d ->
+  Spec.steps msem dotsem callsem awaitsem (SpecCode.with_spawn true p) (S fuel) k st =
+  Comp.bind (Spec.step_result msem dotsem callsem awaitsem (SpecCode.with_spawn true p) k st)
+    (fun sr0 : Comp.dval =>
+     SpecCode.after_sync awaitsem (SpecCode.with_spawn true p)
+       (Spec.steps msem dotsem callsem awaitsem (SpecCode.with_spawn true p) fuel (S k))
+       (PeanoNat.Nat.eqb fuel 0) k st sr0) /\
+  SpecCode.after_sync awaitsem (SpecCode.with_spawn true p)
+    (Spec.steps msem dotsem callsem awaitsem (SpecCode.with_spawn true p) fuel (S k))
+    (PeanoNat.Nat.eqb fuel 0) k st sr = Comp.Ret d /\
+  (forall (hk : Ast.hkind) (hv : Comp.dval) (fam : bool) (wv : Comp.val),
+   d = Comp.DV wv ->
+   SpecProps.failf fam wv = true ->
+   hk = Ast.HMap \/ hk = Ast.HAndThen ->
+   Comp.bind
+     (SpecCode.after_sync awaitsem (SpecCode.with_spawn true p)
+        (Spec.steps msem dotsem callsem awaitsem (SpecCode.with_spawn true p) fuel (S k))
+        (PeanoNat.Nat.eqb fuel 0) k st sr)
+     (fun rs : Comp.dval =>
+      Spec.handle_results callsem awaitsem (SpecCode.with_spawn true p) (Some (hk, hv)) rs) = 
+   Comp.Ret d).
+Proof. exact (@SpecSpawnProps.try_spawn_abort). Qed.
+Print Assumptions try_spawn_abort.
